@@ -64,6 +64,7 @@ type c09walker struct {
 	stack    map[string]bool
 	inGo     int
 	goRets   map[ast.Node]bool // return statements directly in the body of a function literal started with `go`
+	lastRet  []string          // roles of the results of the package function followed last (by position)
 }
 
 func (w *c09walker) goPre() string {
@@ -203,6 +204,19 @@ func (w *c09walker) walk(node ast.Node, env c09env, depth int) {
 						w.events = append(w.events, "peek("+strconv.FormatUint(k, 10)+")")
 						env[lhs0] = "header"
 						return false
+					default:
+						// an extracted stage: `rd, data, err := readClientHello(in)` — the helper is followed and the
+						// roles of what it returns (the buffered reader, the hello) go to the locals they are bound to
+						if id, ok := r.Fun.(*ast.Ident); ok && w.closures[id.Name] == nil && w.x.anyFuncDecl(w.dir, id.Name) != nil {
+							w.lastRet = nil
+							w.call(r, env, depth, false)
+							for i, l := range v.Lhs {
+								if lid, ok := l.(*ast.Ident); ok && i < len(w.lastRet) && w.lastRet[i] != "" {
+									env[lid.Name] = w.lastRet[i]
+								}
+							}
+							return false
+						}
 					}
 				}
 			}
@@ -336,6 +350,25 @@ func (w *c09walker) call(c *ast.CallExpr, env c09env, depth int, isGo bool) bool
 				}
 				w.follow(fd.Body, nenv, depth+1, isGo)
 				delete(w.stack, name)
+				// roles of the results, by position (from any return statement that names a role-carrying variable)
+				var rets []string
+				ast.Inspect(fd.Body, func(n ast.Node) bool {
+					switch r := n.(type) {
+					case *ast.FuncLit:
+						return false
+					case *ast.ReturnStmt:
+						for i, e := range r.Results {
+							if rr := w.role(e, nenv); rr != "other" {
+								for len(rets) <= i {
+									rets = append(rets, "")
+								}
+								rets[i] = rr
+							}
+						}
+					}
+					return true
+				})
+				w.lastRet = rets
 			}
 		}
 	}
@@ -563,32 +596,67 @@ func c09ProxyHeader(x *X) {
 	}
 	w := &c09walker{x: x}
 	var splits []string
+	splitPass := func(body ast.Node) {
+		ast.Inspect(body, func(n ast.Node) bool {
+			a, ok := n.(*ast.AssignStmt)
+			if !ok || len(a.Rhs) != 1 {
+				return true
+			}
+			c, ok := a.Rhs[0].(*ast.CallExpr)
+			if !ok || x.src(c.Fun) != "net.SplitHostPort" || len(c.Args) != 1 || len(a.Lhs) < 2 {
+				return true
+			}
+			arg := w.render(c.Args[0], env)
+			splits = append(splits, arg)
+			pre := "?"
+			switch {
+			case strings.Contains(arg, "RemoteAddr"):
+				pre = "client"
+			case strings.Contains(arg, "LocalAddr"):
+				pre = "server"
+			}
+			if id, ok := a.Lhs[0].(*ast.Ident); ok {
+				env[id.Name] = pre + "Addr"
+			}
+			if id, ok := a.Lhs[1].(*ast.Ident); ok {
+				env[id.Name] = pre + "Port"
+			}
+			return true
+		})
+	}
+	splitPass(fd.Body)
+	// unexported helpers of the package that WriteProxyHeader calls are part of it: their parameters stand for the
+	// arguments (so `client.String()` in a helper called with `in.RemoteAddr()` is `client.RemoteAddr().String()`)
+	bodies := []ast.Node{fd.Body}
 	ast.Inspect(fd.Body, func(n ast.Node) bool {
-		a, ok := n.(*ast.AssignStmt)
-		if !ok || len(a.Rhs) != 1 {
+		c, ok := n.(*ast.CallExpr)
+		if !ok {
 			return true
 		}
-		c, ok := a.Rhs[0].(*ast.CallExpr)
-		if !ok || x.src(c.Fun) != "net.SplitHostPort" || len(c.Args) != 1 || len(a.Lhs) < 2 {
+		id, ok := c.Fun.(*ast.Ident)
+		if !ok {
 			return true
 		}
-		arg := w.render(c.Args[0], env)
-		splits = append(splits, arg)
-		pre := "?"
-		switch {
-		case strings.Contains(arg, "RemoteAddr"):
-			pre = "client"
-		case strings.Contains(arg, "LocalAddr"):
-			pre = "server"
+		h := x.anyFuncDecl("proxy/tcp", id.Name)
+		if h == nil || h.Body == nil || h.Recv != nil || h == fd || len(bodies) > 4 {
+			return true
 		}
-		if id, ok := a.Lhs[0].(*ast.Ident); ok {
-			env[id.Name] = pre + "Addr"
+		i := 0
+		if h.Type.Params != nil {
+			for _, p := range h.Type.Params.List {
+				for _, nm := range p.Names {
+					if i < len(c.Args) {
+						env[nm.Name] = w.render(c.Args[i], env)
+					}
+					i++
+				}
+			}
 		}
-		if id, ok := a.Lhs[1].(*ast.Ident); ok {
-			env[id.Name] = pre + "Port"
-		}
+		splitPass(h.Body)
+		bodies = append(bodies, h.Body)
 		return true
 	})
+	sort.Strings(splits) // which address is split first is layout
 	// the family variable: the one a "TCP4"/"TCP6" literal is assigned to
 	var fam []string
 	var walk func(n ast.Node, cond string)
@@ -626,7 +694,9 @@ func c09ProxyHeader(x *X) {
 			return true
 		})
 	}
-	walk(fd.Body, "")
+	for _, b := range bodies {
+		walk(b, "")
+	}
 	sort.Strings(fam)
 	x.defStrList("pxyFamily", fam)
 	x.defStrList("pxySplitArgs", splits)
@@ -645,15 +715,17 @@ func c09ProxyHeader(x *X) {
 		}
 		return []string{w.render(e, env)}
 	}
-	ast.Inspect(fd.Body, func(n ast.Node) bool {
-		if b, ok := n.(*ast.BinaryExpr); ok && b.Op == token.ADD && parts == nil {
-			if fl := flatten(b); len(fl) > 0 && strings.HasPrefix(fl[0], "lit:PROXY ") {
-				parts = fl
-				return false
+	for _, body := range bodies {
+		ast.Inspect(body, func(n ast.Node) bool {
+			if b, ok := n.(*ast.BinaryExpr); ok && b.Op == token.ADD && parts == nil {
+				if fl := flatten(b); len(fl) > 0 && strings.HasPrefix(fl[0], "lit:PROXY ") {
+					parts = fl
+					return false
+				}
 			}
-		}
-		return true
-	})
+			return true
+		})
+	}
 	if parts == nil {
 		x.fail("WriteProxyHeader: the concatenation starting with \"PROXY \" was not found")
 	}
